@@ -60,6 +60,14 @@ ASSUMPTIONS = [
     'the EventMgr run loop, watchdog and watches are not started; the '
     'sequence of a watch delivery (_cache_notify(False), _synchronize, '
     '_cache_notify(True)) is called directly',
+    'start-up slice (plan mode S): the real EventMgr.run(once=True) is '
+    'executed with the fake zk client as context.GLOBAL.zk.conn (fakezk '
+    'DataWatch/ChildrenWatch call back immediately with the current state, '
+    'like kazoo); the first _synchronize and its check_existing flag come '
+    'from the real _check_placement/_app_watch; stubbed: watchdog lease, the '
+    'heartbeat time.sleep, utils.exit_on_unhandled (re-raises); listed '
+    'instances = children of the placement node; presence node present; no '
+    'faults in this slice',
     'bounds: quick 2 slots (faults on 1 and 2 slots); thorough 3 slots '
     '(faults on 1 and 2 slots); manifests are small (one stream write with '
     'the C emitter), torn-write fractions stand in for larger ones',
@@ -70,10 +78,16 @@ _MENU1 = sorted(w.slot_menu(big=True), key=w.slot_weight)   # single slot
 
 
 def _plan(tier):
-    """[(mode, nslots)]: B = fault-free sweep, F = sweep + every fault."""
+    """[(mode, nslots)]: B = fault-free sweep, F = sweep + every fault,
+    S = start-up slice (real EventMgr.run issues the first sync)."""
     if tier == 'quick':
-        return [('F', 1), ('F', 2)]
-    return [('F', 1), ('F', 2), ('B', 3)]
+        return [('S', 1), ('S', 2), ('F', 1), ('F', 2)]
+    return [('S', 1), ('S', 2), ('F', 1), ('F', 2), ('B', 3)]
+
+
+def _startable(cfg):
+    """Start-up slice: listed <=> the placement node exists."""
+    return bool(cfg[1]) == bool(cfg[3])
 
 
 def _chunks(tier):
@@ -82,7 +96,8 @@ def _chunks(tier):
         if n == 1:
             out.append((mode, n, ()))
         elif n == 2:
-            out.extend((mode, n, (i,)) for i in range(len(_MENU)))
+            out.extend((mode, n, (i,)) for i in range(len(_MENU))
+                       if mode != 'S' or _startable(_MENU[i]))
         else:
             out.extend((mode, n, (i, j)) for i in range(len(_MENU))
                        for j in range(len(_MENU)))
@@ -118,6 +133,18 @@ def _worker(chunk):
     try:
         for last in (_MENU1 if n == 1 else _MENU):
             slots = [_MENU[i] for i in prefix] + [last]
+            if mode == 'S':
+                if not _startable(last):
+                    continue
+                case = {'slots': [list(s) for s in slots], 'check': None,
+                        'startup': True}
+                vs, info = w.run_case(world, case)
+                cases += 1
+                cnt['startup_cases_%d_slots' % n] += 1
+                if info.get('written'):
+                    nontrivial += 1
+                note(vs, case, None)
+                continue
             for check in (False, True):
                 case = {'slots': [list(s) for s in slots], 'check': check}
                 vs, info = w.run_case(world, case)
@@ -188,7 +215,8 @@ def _run(ctx):
                c.get('fault_runs', 0), res.wall_s))
     if not (res.nontrivial and c.get('fault_kill') and c.get('fault_error')
             and c.get('written_files_checked') and c.get('virtual_stats')
-            and c.get('fault_at_write') and c.get('resyncs')):
+            and c.get('fault_at_write') and c.get('resyncs')
+            and c.get('startup_syncs') and c.get('outdated_files_checked')):
         raise w.HarnessError('vacuous run: %r' % dict(c))
     merged = {}
     for v in res.violation_list():
